@@ -24,7 +24,7 @@ def check(prop, tier, seed):
         cov['samples'].append({'family': label, 'stimulus': simple.sample_of(stims)})
     # classification through the generated client: canned responses (status in head / trailers / HTTP status only)
     from . import p_call, decomp
-    mstims = p_call.mock_stims(seed, tier)
+    mstims = p_call.mock_stims(seed, tier) + p_call.mock_table_stims(seed, tier, mc)
     mev, mpath = simple.run_lab('call', mstims, tag, 'mock_responses', annotate=decomp.annotate)
     simple.validate(prop, 'Trace_Call', verdict, mev, mpath, 'mock_responses', cov, clause_filter=p_call.clause_filter('C04'), harness_clauses=p_call.HARNESS)
     cov['samples'].append({'family': 'mock_responses', 'stimulus': simple.sample_of(mstims)})
